@@ -52,7 +52,7 @@ fn gen_tree(p: &mut Pool, depth: usize) -> OptSpec {
         }
         let mut shorts = Vec::new();
         if p.rng.chance(1, 3) {
-            if let Some(c) = p.short() {
+            if let Some(c) = p.cmd_short() {
                 shorts.push(c);
             }
         }
